@@ -135,6 +135,13 @@ def run_config(run, prop, name, consts, wd, spec, *, caching=False, vertex_cls=N
 def replay_query(prop, path, wd):
     with open(path) as f:
         rp = json.load(f)
+    if rp["kind"] == "lazy-trace":
+        from . import lazy_exec
+        if lazy_exec.replay(rp, wd):
+            print(f"VIOLATION property={prop} replay={path}  # reproduced: the generator deviates from spec/EGLazy.tla")
+            return 1
+        print(f"replay of {path}: property {prop} holds on the current tree")
+        return 0
     consts = {k: (set(v) if isinstance(v, list) and k in ("Kinds", "Fams", "OnlyOps") else v) for k, v in rp["consts"].items()}
     from edgegraph.structure import Vertex
     Vertex.NEIGHBOR_CACHING = bool(rp.get("caching"))
@@ -341,6 +348,9 @@ def _trav(prop, tier, seed, wd, replay, rule):
         name, consts = cfgs[0]
         run_config(run, prop, name + "+cache", consts, wd, spec, caching=True)
     deep_stage(run, prop, wd, 450 if tier == "quick" else 800)
+    if prop == "C06":
+        from . import lazy_exec
+        lazy_exec.check(run, wd, seed, tier)       # generator forms interleaved with structural calls (spec/EGLazy.tla)
     run.exhaustive = True
     run.assumptions = ASSUME
     mandatory = [lambda c: "selfloop" in c, lambda c: "parallel" in c, lambda c: "mixed" in c,
